@@ -112,6 +112,18 @@ func init() {
 			}
 			mask := enumerateMaskRules(maxTok, sample, rc.Seed)
 			rx := enumerateRegexRulesSampled(maxAtoms, rsample, rc.Seed)
+			// nested groups: an optional / repeated outer group around a group, followed by a literal tail
+			seenN := map[string]bool{}
+			for _, t := range rx.texts {
+				seenN[t] = true
+			}
+			for _, q := range []string{"", "*", "+", "?", "{0,2}"} {
+				for _, inner := range []string{"(a|b)cde", "(ab)?cde", "a(bc)*de", "(a(bc))de", "(?:ab|c)def", "((ab)|cd)ef"} {
+					for _, tail := range []string{"fg", `\.js`, ""} {
+						addRegexRule(rx, seenN, "/("+inner+")"+q+tail+"/")
+					}
+				}
+			}
 			bd := bundledRegexRules(nb)
 			all := &nativeRules{}
 			all.texts = append(append(append(all.texts, mask.texts...), rx.texts...), bd.texts...)
@@ -153,7 +165,7 @@ func init() {
 		},
 		MustReach: []string{"c03b.rule", "c05.rule", "c05.accepts"},
 		Bounds: map[string]string{
-			"quick":    "mask patterns of 1..2 tokens (as C03) + 100 seeded longer ones; regular expressions of 1..2 atoms over 25 atoms plus 60 seeded ones of 3..4 atoms (literals, \\d \\w \\s \\b \\. \\/ \\xHH, classes, groups with alternation, | * + {m,n} ? ^ $ .); the first 60 regular-expression rules of the bundled lists; for each rule ALL URLs of 0..12 printable-ASCII bytes and ALL hostnames of 1..8 bytes",
+			"quick":    "mask patterns of 1..2 tokens (as C03) + 100 seeded longer ones; regular expressions of 1..2 atoms over 25 atoms plus 60 seeded ones of 3..4 atoms and up to 90 nested-group shapes ((inner group) outer quantifier, literal tail) (literals, \\d \\w \\s \\b \\. \\/ \\xHH, classes, groups with alternation, | * + {m,n} ? ^ $ .); the first 60 regular-expression rules of the bundled lists; for each rule ALL URLs of 0..12 printable-ASCII bytes and ALL hostnames of 1..8 bytes",
 			"thorough": "mask 1..2 tokens plus 2000 seeded longer ones, regular expressions 1..2 atoms plus 1500 seeded ones of 3..4 atoms, every regular-expression rule of the bundled lists; URLs 0..20 bytes, hostnames 1..12 bytes",
 		},
 		Outside:     []string{"URLs longer than the bound (a rule whose shortest match is longer is vacuously covered)", "non-ASCII bytes", "look-arounds (rejected by Go's regexp: the rule is invalid and never matches)"},
